@@ -745,7 +745,7 @@ impl<'o> Hist<'o> {
             self.viol(&["C18"], "truncate-capacity", format!("truncate({}) with allocated {}: capacity {} (expected {})", n, pre.0.allocated, post.0.cap, want));
             return;
         }
-        let same_mem = self.runners[0].mem().len() == want as usize && self.runners[0].mem()[..used] == mem_pre[..];
+        let same_mem = self.runners[0].mem().len() == want as usize && masked_eq(&self.runners[0].mem()[..used], &mem_pre[..], &self.cfg);
         if post.0.allocated != pre.0.allocated || post.0.discarded != pre.0.discarded || post.1 != pre.1 || post.0.min_seg != pre.0.min_seg || !same_mem {
             let msg = format!("truncate({}) changed more than the capacity: {:?} {:?} -> {:?} {:?}; bytes below allocated unchanged: {}", n, pre.0, pre.1, post.0, post.1, same_mem);
             self.viol(&["C18"], "truncate-changed-more", msg);
@@ -815,7 +815,7 @@ impl<'o> Hist<'o> {
         let post = self.state_tuple();
         self.out.inc(&format!("c05_reopen_checks.{:?}", mode));
         let magic_post = self.runners[0].describe().iter().find(|x| x.0 == "magic_version").map(|x| x.1.clone());
-        let mem_ok = self.runners[0].mem().len() >= used && self.runners[0].mem()[..used] == mem_pre[..];
+        let mem_ok = self.runners[0].mem().len() >= used && masked_eq(&self.runners[0].mem()[..used], &mem_pre[..], &self.cfg);
         if post.0.allocated != pre.0.allocated || post.0.discarded != pre.0.discarded || post.0.data_offset != pre.0.data_offset || post.0.min_seg != pre.0.min_seg || magic_pre != magic_post || post.1 != pre.1 || !mem_ok {
             let msg = format!("state after reopen differs: before {:?} list {:?} magic {:?}; after {:?} list {:?} magic {:?}; bytes below allocated equal: {}", pre.0, pre.1, magic_pre, post.0, post.1, magic_post, mem_ok);
             self.viol(&["C05"], &format!("reopen-state:{:?}", mode), msg);
